@@ -42,6 +42,11 @@ def start(reach):
     return fired, eps, log, clock
 
 
+# unique names a bus may hand out: any valid unique connection name, not only the reference daemon's ':<int>.<int>'
+UNIQUE_NAMES = [':1.77', ':bus-7.conn_12', ':a.b.c', ':1.42-x', ':_._', ':1.0']
+_name_turn = [0]
+
+
 def drive(ep, upto):
     """server side of the handshake on the connected endpoint, up to a stage:
        0 nothing, 1 after the client's AUTH was answered REJECTED (it retries), 2 after OK (client sends BEGIN + Hello),
@@ -81,7 +86,9 @@ def drive(ep, upto):
     if upto == 'hello_error':
         p.dataReceived(message.ErrorMessage('org.freedesktop.DBus.Error.Failed', hello.serial, signature='s', body=['no']).rawMessage)
         return None
-    p.dataReceived(message.MethodReturnMessage(hello.serial, signature='s', body=[':1.77']).rawMessage)
+    _name_turn[0] += 1
+    ep.unique_name = UNIQUE_NAMES[_name_turn[0] % len(UNIQUE_NAMES)]
+    p.dataReceived(message.MethodReturnMessage(hello.serial, signature='s', body=[ep.unique_name]).rawMessage)
     return None
 
 
@@ -113,7 +120,7 @@ def connect_case(reach, stage):
     if f:
         return what + ': ' + f
     if stage == 3:
-        if len(fired) != 1 or not isinstance(fired[0], client.DBusClientConnection) or fired[0].busName != ':1.77':
+        if len(fired) != 1 or not isinstance(fired[0], client.DBusClientConnection) or fired[0].busName != ep.unique_name:
             return '%s: connect Deferred fired %r after the Hello reply' % (what, fired)
     elif stage == 'hello_error':
         if len(fired) != 1 or not isinstance(fired[0], failure.Failure):
